@@ -100,7 +100,7 @@ func (p *Program) modSets() map[*ssa.Function]map[string]bool {
 // the externals table, the pointee types of the written arguments; for unknown
 // callees receiving pointer-like arguments, "*".
 func externalWrites(name string, call ssa.CallInstruction) []string {
-	info, ok := externals[name]
+	info, ok := externals[extName(name)]
 	args := allArgs(call)
 	if !ok {
 		for _, a := range args {
